@@ -619,6 +619,8 @@ type replica struct {
 	attempts      int
 	attemptedTime time.Duration
 	flag          uint8
+	// leaderChances counts the extra chances granted by onUpdateLeader.
+	leaderChances int
 }
 
 func (r *replica) getEpoch() uint32 {
@@ -634,11 +636,13 @@ func (r *replica) isExhausted(maxAttempt int, maxAttemptTime time.Duration) bool
 }
 
 func (r *replica) onUpdateLeader() {
-	if r.isExhausted(maxReplicaAttempt, maxReplicaAttemptTime) {
+	if r.isExhausted(maxReplicaAttempt, maxReplicaAttemptTime) && r.leaderChances < maxReplicaAttempt {
 		// Give the replica one more chance and because each follower is tried only once,
-		// it won't result in infinite retry.
+		// it won't result in infinite retry. The chances themselves are bounded too: stores whose
+		// hints keep naming each other must not be followed for ever.
 		r.attempts = maxReplicaAttempt - 1
 		r.attemptedTime = 0
+		r.leaderChances++
 	}
 	// The replica is confirmed to be the leader by a NotLeader hint, so it is no longer
 	// suspected of having lost leadership.
